@@ -147,6 +147,13 @@ fn advance_slices(slices: &mut &mut [&[u8]], count: usize) {
     assert_eq!(remaining, 0);
 }
 
+/// Verification hook: run [`write_all_vectored`] on caller-chosen buffers (some may be empty).
+#[cfg(metrique_verif)]
+pub fn verif_write_all_vectored(bufs: &[&[u8]], output: &mut impl io::Write) -> io::Result<()> {
+    let bufs: SmallVec<[&[u8]; 8]> = bufs.iter().copied().collect();
+    write_all_vectored(bufs, output)
+}
+
 #[cfg(test)]
 mod test {
     use super::PrefixedStringBuf;
